@@ -113,6 +113,7 @@ def gen(ctx):
                     else:
                         ops.append(dict(m=m, name=sp, mode=r.choice(MODES)))
             cases.append(dict(kind=kind, links=links, dirs=['sub'], files=[['notes.txt', 'hello']], ops=ops,
+                              via=[None, None, 'dotdot', 'symlink', 'relative'][len(cases) % 5],
                               target=name, prot=prot))
     # user files
     for kind, prot in (('Array', APROT), ('RaggedArray', RPROT)):
